@@ -5,7 +5,7 @@ int xrow, xoff, xtop, xleft, xquit, xru, xhll;
 char g_oldbyte_lp;
 static struct lbuf { int d; } g_lplb;
 struct lbuf *ex_lbuf(void) { return &g_lplb; }
-struct ghost_lp_in { int mv, key, n2; } LPI;	/* constants */
+struct ghost_lp_in { int mv, key, n2, col0, col1, c2o; } LPI;	/* constants */
 struct ghost_lp {
 	int t;			/* event clock */
 	int cmd_calls, t_cmd1, t_cmd2;
@@ -13,6 +13,7 @@ struct ghost_lp {
 	int mod_calls, t_mod;
 	int put_calls, put_reg, put_ln; char *put_text;
 	int reads;
+	int o2c_calls, c2o_calls, c2o_col, cursor_col, cursor_calls;
 } LP;
 static char g_icmd[4096];
 static void key_event(void)
@@ -51,16 +52,24 @@ static int vi_prefix(void) { key_event(); return nondet_int(); }
 static int vi_motion(int *row, int *off) { key_event(); return LPI.mv; }
 static int vi_read(void) { key_event(); LP.reads++; return LP.reads == 1 ? LPI.key : nondet_int(); }
 char *lbuf_get(struct lbuf *lb, int pos) { return (char *) 0; }
+/* column <-> offset conversions (units ren.posoff_bounded / ren.*): the first call is the one before the loop */
+static int vi_off2col(struct lbuf *lb, int row, int off) { LP.o2c_calls++; return LP.o2c_calls == 1 ? LPI.col0 : LPI.col1; }
+static int vi_col2off(struct lbuf *lb, int row, int col) { LP.c2o_calls++; LP.c2o_col = col; return LPI.c2o; }
+int ren_cursor(char *s, int p) { LP.cursor_calls++; LP.cursor_col = p; return p; }
+int lbuf_indents(struct lbuf *lb, int r) { return 0; }
 int ren_noeol(char *s, int o) { return o; }
 
 void h_vi_loop(void)
 {
 	GHOST_INIT();
-	LPI.mv = nondet_int(); LPI.key = nondet_int(); LPI.n2 = nondet_int();
+	LPI.mv = nondet_int(); LPI.key = nondet_int(); LPI.n2 = nondet_int(); LPI.col0 = nondet_int(); LPI.col1 = nondet_int(); LPI.c2o = nondet_int();
+	__CPROVER_assume(0 <= LPI.col0 && LPI.col0 <= 0x100000 && 0 <= LPI.col1 && LPI.col1 <= 0x100000 && 0 <= LPI.c2o && LPI.c2o <= 0x100000);
+	vi_pcol = nondet_int();
+	__CPROVER_assume(0 <= vi_pcol && vi_pcol <= 0x100000);
 	__CPROVER_assume(-1 <= LPI.mv && LPI.mv < 256 && -1 <= LPI.key && LPI.key < 256 && 0 <= LPI.n2 && LPI.n2 <= 4096);
 	xquit = 0; xrow = nondet_int(); xoff = nondet_int(); xtop = nondet_int(); xleft = nondet_int();
 	__CPROVER_assume(0 <= xrow && xrow <= 0x1000000 && 0 <= xoff && xoff <= 0x1000000 && 0 <= xtop && xtop <= 0x1000000 && 0 <= xleft && xleft <= 0x1000000);
-	LP.t = LP.cmd_calls = LP.t_cmd1 = LP.t_cmd2 = LP.t_firstkey = LP.mod_calls = LP.t_mod = LP.put_calls = LP.reads = 0;
+	LP.t = LP.cmd_calls = LP.t_cmd1 = LP.t_cmd2 = LP.t_firstkey = LP.mod_calls = LP.t_mod = LP.put_calls = LP.reads = 0; LP.o2c_calls = LP.c2o_calls = LP.cursor_calls = 0; LP.c2o_col = LP.cursor_col = -7;
 	g_oldbyte_lp = g_icmd[0];
 	rep_len = nondet_int();
 	int rep_len0 = rep_len;
@@ -79,6 +88,14 @@ void h_vi_loop(void)
 		} else if (c != 'g')
 			H_ASSERT(rep_len == rep_len0 && LP.put_calls == 0, "vi: any other command leaves the repeat buffer alone");
 	}
+	/* the remembered column (C07: "the sticky column of j/k depends on history") */
+	if (LPI.mv == 'j' || LPI.mv == 'k') {
+		H_ASSERT(LP.c2o_calls == 1 && LP.c2o_col == LPI.col0 && xoff == LPI.c2o, "vi: j and k go to the remembered column of the new line");
+		H_ASSERT(LP.cursor_calls >= 1 && LP.cursor_col == LPI.col0, "vi: j and k leave the remembered column as it was");
+	} else if (LPI.mv == '|')
+		H_ASSERT(LP.cursor_calls >= 1 && LP.cursor_col == vi_pcol, "vi: | makes its column the remembered column");
+	else if (LPI.mv > 0)
+		H_ASSERT(LP.cursor_calls >= 1 && LP.cursor_col == LPI.col1 && LP.c2o_calls == 0, "vi: every other motion makes the column it lands on the remembered column");
 #ifdef CANARY
 	__CPROVER_assert(0, "canary");
 #endif
